@@ -886,7 +886,7 @@ def element_wise_dyadic_maximum(lhs, rhs, ctx):
     """
     lhs, rhs = iterable(lhs, ctx=ctx), iterable(rhs, ctx=ctx)
     return LazyList(
-        dyadic_maximum(lhs[i], rhs[i], ctx) for i in range(len(lhs))
+        dyadic_maximum(x, y, ctx) for x, y in vy_zip(lhs, rhs, ctx=ctx)
     )
 
 
@@ -896,7 +896,7 @@ def element_wise_dyadic_minimum(lhs, rhs, ctx):
     """
     lhs, rhs = iterable(lhs, ctx=ctx), iterable(rhs, ctx=ctx)
     return LazyList(
-        dyadic_minimum(lhs[i], rhs[i], ctx) for i in range(len(lhs))
+        dyadic_minimum(x, y, ctx) for x, y in vy_zip(lhs, rhs, ctx=ctx)
     )
 
 
